@@ -172,6 +172,19 @@ func genC07(g *G) {
 	for _, s := range []string{"", " ", "\t", "#", " # x", "1.2.3.4", "localhost", "\r", "\xff\xfe", "1.2.3.4 a b c", "1.2.3.4   tail", "1.2.3.4\ta\tb", "1.2.3.4 a#b c"} {
 		emit(s)
 	}
+	// rare shapes: names that are long in UTF-8 but short in Punycode (and the other way round),
+	// addresses whose text is long because of the zone, very long lines
+	longNames := append([]string{strings.Repeat(strings.Repeat("я", 30)+".", 4) + strings.Repeat("я", 30), strings.Repeat("é", 57) + ".com"}, longIDNNames()[:12]...)
+	longAddrs := []string{"fe80::1%" + strings.Repeat("z", 54), "fe80::1%" + strings.Repeat("z", 53), "1111:2222:3333:4444:5555:6666:7777:8888%" + strings.Repeat("e", 22),
+		"1111:2222:3333:4444:5555:6666:7777:8888%" + strings.Repeat("e", 21), "::ffff:255.255.255.255%" + strings.Repeat("q", 40), "fe80::1%" + strings.Repeat("z", 300)}
+	for _, a := range append(longAddrs, "1.2.3.4", "::1") {
+		for _, n := range longNames {
+			emit(a + " " + n)
+			emit(a + "\t" + n + " host.example")
+		}
+		emit(a + " host.example " + strings.Repeat("a.", 126) + "a")
+		emit(a + " " + strings.Repeat("x ", 2000) + "last.example")
+	}
 }
 
 func init() {
